@@ -332,6 +332,78 @@ def strategy():
                                   'all': st.booleans()})
 
 
+# ---- every documented form of a dictionary value, in every slot ------------------------------------------------
+
+FORM_VALUES = ['Phospho', 0, 0.0, 1.5, -3, ['Phospho'], [0], ['Phospho', 2.5], 'MOD']   # 'MOD' = a Mod object
+FORM_SLOTS = ['labile', 'unknown', 'nterm', 'cterm', 'internal', 'intervals']
+FORM_BASES = [dict.fromkeys(FORM_SLOTS, ()),
+              {'labile': ('Glycan:Hex',), 'unknown': ('Formula:C',), 'nterm': ('Acetyl',), 'cterm': ('Amidated',), 'internal': ('Oxidation',),
+               'intervals': ('Methyl',)}]
+
+
+def _form_string(mods):
+    """'P(EP)TIDE' with the given modification texts per slot (internal = residue 4, interval = residues 1..2)"""
+    b = lambda xs: ''.join(f'[{x}]' for x in xs)  # noqa
+    return ''.join('{' + str(x) + '}' for x in mods['labile']) + (b(mods['unknown']) + '?' if mods['unknown'] else '') + \
+        (b(mods['nterm']) + '-' if mods['nterm'] else '') + 'P(EP)' + b(mods['intervals']) + 'TI' + b(mods['internal']) + 'DE' + \
+        ('-' + b(mods['cterm']) if mods['cterm'] else '')
+
+
+def check_forms(case) -> Result:
+    """a dictionary value may be a single value, a list of values or Mod objects; with append the modifications are added to those
+    present, without it they replace them - in every slot, through add_mods (string) and add_mod_dict (annotation)"""
+    import peptacular as pt
+    from peptacular.proforma.proforma_dataclasses import Mod
+    r = Result()
+    slot, val, base, append, path = case['slot'], FORM_VALUES[case['value']], FORM_BASES[case['base']], case['append'], case['path']
+    r.nontrivial = bool(base[slot]) and append
+    r.classes = [f'slot={slot}', f'path={path}', f'append={append}', 'value=' + type(val).__name__]
+    arg = Mod('Phospho', 2) if val == 'MOD' else copy.deepcopy(val)
+    texts = ['Phospho]^2['] if val == 'MOD' else [str(v) for v in (val if isinstance(val, list) else [val])]
+    texts = ['Phospho'] if val == 'MOD' else texts
+    start = _form_string(base)
+    exp_mods = {k: list(v) for k, v in base.items()}
+    exp_mods[slot] = (exp_mods[slot] if append else []) + texts
+    expected = _form_string(exp_mods)
+    if val == 'MOD':
+        expected = expected.replace('[Phospho]', '[Phospho]^2').replace('{Phospho}', '{Phospho}^2')
+    d = {'internal': {4: arg}} if slot == 'internal' and path == 'add_mod_dict' else \
+        {4: arg} if slot == 'internal' else {'intervals': (1, 3, False, arg)} if slot == 'intervals' else {slot: arg}
+    if slot == 'internal' and path == 'add_mod_dict':
+        d = {4: arg}
+    ctx = dict(start=start, dictionary=repr(d), append=append, path=path, expected=expected)
+    if slot == 'intervals' and append:
+        # appending adds a second interval over the same residues, which the notation does not allow: only replacing is asked
+        r.nontrivial = False
+        return r
+    try:
+        if path == 'add_mods':
+            got = pt.add_mods(start, d, append=append)
+        else:
+            a = pt.parse(start)
+            a.add_mod_dict(d, append=append)
+            got = a.serialize()
+        same = pt.parse(got) == pt.parse(expected) and model.project(pt.parse(got)) == model.project(pt.parse(expected))
+    except ValueError as e:
+        r.fail('a documented value form is accepted in every slot', f'C20/forms/{slot}/raises', error=str(e)[:120], **ctx)
+        return r
+    if not same:
+        r.fail('adding a dictionary of modifications gives the peptide that carries them (single value, list or Mod objects alike)',
+               f'C20/forms/{slot}/' + ('append' if append else 'replace') + '/' + ('scalar' if not isinstance(val, list) else 'list'), got=got, **ctx)
+    return r
+
+
+def form_cases():
+    for slot in FORM_SLOTS:
+        for vi in range(len(FORM_VALUES)):
+            for base in (0, 1):
+                for append in (False, True):
+                    for path in ('add_mods', 'add_mod_dict'):
+                        yield {'slot': slot, 'value': vi, 'base': base, 'append': append, 'path': path}
+
+
 def parts(tier):
     n = 4000 if tier == 'quick' else 150000
-    return [Part(name='dict-copy-eq', kind='hyp', check_case=check_case, strategy=strategy, examples=n)]
+    return [Part(name='dict-copy-eq', kind='hyp', check_case=check_case, strategy=strategy, examples=n),
+            Part(name='value-forms', kind='enum', check_case=check_forms, cases=form_cases, exhaustive=True, shards=8,
+                 space='6 slots x 9 value forms (text, 0, 0.0, decimal, negative, lists, Mod object) x empty / occupied slot x append or replace x add_mods (string) / add_mod_dict (annotation)')]
